@@ -357,8 +357,22 @@ pub fn observe_run(vm: &Vm<Host>, program: &CaoCompiledProgram, names: &[String]
 
 /// compile result already at hand: run it on a fresh VM
 pub fn run_program(m: &ir::Module, program: &CaoCompiledProgram, natives: &[NativeSpec], cfg: &RunCfg) -> RealOutcome {
+    let vm = new_vm(m, natives, cfg);
+    run_on(vm, m, program)
+}
+
+/// like `run_program`, but the instruction budget is configured through the public builder
+/// (`Vm::with_max_iter`) instead of the field
+pub fn run_program_builder(m: &ir::Module, program: &CaoCompiledProgram, natives: &[NativeSpec], cfg: &RunCfg) -> RealOutcome {
+    let n = cfg.max_instr;
+    match catch_unwind(AssertUnwindSafe(|| new_vm(m, natives, &RunCfg { max_instr: 1, ..cfg.clone() }).with_max_iter(n))) {
+        Ok(vm) => run_on(vm, m, program),
+        Err(p) => RealOutcome { result: "PANIC".into(), panic: Some(format!("while configuring the budget: {}", cvx_core::engine::panic_message(&p))), ..Default::default() },
+    }
+}
+
+pub fn run_on(mut vm: Vm<'static, Host>, m: &ir::Module, program: &CaoCompiledProgram) -> RealOutcome {
     let names = m.mentioned_names();
-    let mut vm = new_vm(m, natives, cfg);
     cao_lang::verif::reset_instr_count();
     let r = catch_unwind(AssertUnwindSafe(|| vm.run(program)));
     match r {
